@@ -106,3 +106,23 @@ unsigned char *vsim_sid_psk_id(sslSessionId_t *sid, int *len) { *len = 0; return
 unsigned char *vsim_sid_psk_key(sslSessionId_t *sid, int *len) { *len = 0; return NULL; }
 #endif
 int vsim_peek_ems(const ssl_t *ssl) { return ssl ? ssl->extFlags.extended_master_secret : 0; }
+
+/* A server that asks for renegotiation: HelloRequest sealed under the session's write state and queued in its output buffer.  (The encoder
+ * is exported by the library in every build; the public wrapper exists only with USE_REHANDSHAKING.  To the CLIENT this is what any peer
+ * stack that supports renegotiation may send.) */
+int vsim_encode_hello_request(ssl_t *ssl)
+{
+#ifdef USE_SERVER_SIDE_SSL
+    sslBuf_t sbuf; uint32 req = 0; int32 rc;
+    extern int32 matrixSslEncodeHelloRequest(ssl_t *ssl, sslBuf_t *out, uint32 *requiredLen);
+    if (!ssl || !ssl->outbuf || ssl->outsize - ssl->outlen < 128) { return -1; }
+    sbuf.buf = sbuf.start = sbuf.end = ssl->outbuf + ssl->outlen;
+    sbuf.size = ssl->outsize - ssl->outlen;
+    rc = matrixSslEncodeHelloRequest(ssl, &sbuf, &req);
+    if (rc < 0) { return rc; }
+    ssl->outlen += (int32) (sbuf.end - sbuf.start);
+    return 0;
+#else
+    (void) ssl; return -1;
+#endif
+}
